@@ -212,8 +212,13 @@ def do_check(mod, modname, args, root):
     if setup:
         setup()
     by_cls = {}
+    alternatives = {}
     for order_key, cls, case, v in sorted(agg.viol, key=lambda x: (x[1], x[0])):
-        by_cls.setdefault(cls, (order_key, case, v))
+        if cls in by_cls:
+            if len(alternatives.setdefault(cls, [])) < 5:
+                alternatives[cls].append((order_key, case, v))
+        else:
+            by_cls[cls] = (order_key, case, v)
     exit_code = 0
     reported = []
     known_matched = []
@@ -226,7 +231,14 @@ def do_check(mod, modname, args, root):
             # (then the system under test carries state from one request/parse to the next in a process-wide object)
             hist = history_before(mod, tier, root, order_key, case)
             if hist is not None:
-                got = shrink.minimise(mod, {'history': hist}, cls, budget_s=t_min_budget)
+                got = shrink.minimise(mod, {'_prior_runs': hist}, cls, budget_s=t_min_budget)
+        if got is None:
+            # another instance of the same class may be self-contained
+            for ok2, case2, v2 in alternatives.get(cls, []):
+                got = shrink.minimise(mod, case2, cls, budget_s=t_min_budget)
+                if got is not None:
+                    order_key, case, v = ok2, case2, v2
+                    break
         if got is None:
             unreproducible.append((cls, order_key))
             continue
